@@ -115,7 +115,7 @@ def run(spec, ctx):
         for i in range(spec["n"]):
             table = iogen.gen_table(rng)
             path = os.path.join(root, "pte_%d.h" % (i % 3))      # paths are reused: the file is rewritten with another table
-            im.write_pte_table(path, table, rng, style=rng.randrange(4) | (16 if rng.random() < 0.3 else 0))
+            im.write_pte_table(path, table, rng, style=rng.randrange(4) | (16 if rng.random() < 0.3 else 0) | (128 if rng.random() < 0.3 else 0))
             TABLES[os.path.abspath(path)] = iogen.model_table(table)
             for _ in range(12):
                 data = iogen.gen_ilog(rng, table)
